@@ -60,6 +60,11 @@ def scenario(rng, k):
     for _ in range(rng.randrange(0, 3)):
         steps.append(G.run_step(rng, 150 + 10 * len(steps), target=rng.choice(["//:all", "//:a", "//pk:b", "//:d"]),
                                 again=True, p_fail=0.2))
+    if git and rng.random() < 0.5:
+        # git integration is switched off later on: the newest versions carry no commit, older ones do (some recorded dirty)
+        steps.append({"cmd": "setconfig", "text": "disable_git = true\n"})
+        for _ in range(rng.randrange(1, 3)):
+            steps.append(G.run_step(rng, 400 + 10 * len(steps), target=rng.choice(["//:all", "//:a", "//pk:b"]), again=True, p_fail=0.1))
     steps.append({"cmd": "plant", "entries": odd_plants(rng)})
     if rng.random() < 0.3:
         # the sources moved on: a task with recorded versions is not an experiment (not archivable) any more
